@@ -236,6 +236,33 @@ fn main() {
                 let _ = writeln!(out, "{}.close{}x{}.value\t{}\t{}", i, n, ck, ct, outcome(ce.search(close.clone())));
                 let _ = writeln!(out, "{}.close{}x{}.variable_ref\t{}\t{}", i, n, ck, ct, outcome(ce.search(&cv)));
             }
+            // by-functions and map with key expressions of every shape (negative indexes, slices, pipes, calls, quoted
+            // members, current node), over rows some of which lack the member or hold another type; and projections
+            // over collections with null elements whose right-hand side ends in a call
+            let rows = serde_json::json!({"rows": [{"id": "a", "laps": [3, 9, 4], "meta": {"rank": 2, "r k": 5}}, {"id": "b", "laps": [7, 1], "meta": {"rank": 1, "r k": 5}},
+                                                   {"id": "c", "laps": [2, 2, 8], "meta": {"rank": 3, "r k": 1}}, {"id": "d", "laps": [5], "meta": {"rank": 2, "r k": 0}}],
+                                          "mixed": [{"a": 1}, null, {"a": "x"}, {"b": 2}, 7, [1], {"a": null}], "ns": [{"n": -1}, null, {"n": 2}]});
+            const KEYS: [&str; 18] = ["laps[-1]", "laps[0]", "laps[-2]", "laps[1:] | [0]", "laps | [-1]", "meta.rank", "meta.\"r k\"", "abs(laps[-1])", "laps[-1] || `0`", "length(laps)", "id",
+                                      "to_string(laps[-1])", "[laps[-1]][0]", "@.laps[-1]", "laps[?@ > `2`] | [0]", "not_null(missing, laps[0])", "laps[-3]", "sum(laps)"];
+            let key = KEYS[rng.below(KEYS.len())];
+            let mut texts: Vec<String> = ["max_by(rows, &{}).id", "min_by(rows, &{}).id", "sort_by(rows, &{})[*].id", "map(&{}, rows)", "rows[*].{} | [0]"].iter().map(|t| t.replace("{}", key)).collect();
+            const TAILS: [&str; 8] = ["a.type(@)", "type(@)", "n.abs(@)", "a.to_string(@)", "not_null(a, `0`)", "a | type(@)", "[a][0].type(@)", "a.length(@)"];
+            let tail = TAILS[rng.below(TAILS.len())];
+            for start in ["mixed[*]", "mixed[]", "mixed[0:]", "ns[*]", "mixed[?@ != `7`]"] {
+                texts.push(format!("{}.{}", start, tail));
+            }
+            for (bk, bt) in texts.iter().enumerate() {
+                match jmespath::compile(bt) {
+                    Ok(be) => {
+                        let bv = var_of(&rows);
+                        let _ = writeln!(out, "{}.bykey{}x{}.value\t{}\t{}", i, n, bk, bt, outcome(be.search(rows.clone())));
+                        let _ = writeln!(out, "{}.bykey{}x{}.variable_ref\t{}\t{}", i, n, bk, bt, outcome(be.search(&bv)));
+                    }
+                    Err(e) => {
+                        let _ = writeln!(out, "{}.bykey{}x{}.c\t{}\tcompile:{}", i, n, bk, bt, outcome(Err(e)));
+                    }
+                }
+            }
             let text = ["length(xs)", "length(s)", "length(o)", "length(keys(o))", "sort(xs)[0]", "reverse(s) | length(@)", "join('', ss) | length(@)", "xs[*] | length(@)", "max(xs)", "length(values(o))",
                         "sort_by(xs, &@)[-1]", "length(to_array(xs))", "sum(xs)", "length(ss[?@ == 'w1'])", "length(merge(o, o))"][rng.below(15)];
             let e = jmespath::compile(text).unwrap();
